@@ -6,6 +6,7 @@ at the end (namespace Gms.C51).
 -/
 import Gms.Model.Fulltext
 import Gms.Lemmas.FulltextEditor
+import Gms.Lemmas.FulltextKeys
 import Gms.Generated.C51
 
 namespace Gms.Fulltext
@@ -304,19 +305,53 @@ theorem implMatchWhere_eq (key : Word → κ) (minLen maxLen : Nat) (rows : List
       have : ftMatch key minLen maxLen q (docOf r) = true := hiff.mpr (by omega)
       simp [this]
 
-theorem foldl_applyOpImpl (minLen maxLen : Nat) (keyed : Bool) (ops : List Op) (rows : List Row)
-    (h : rStuck minLen maxLen keyed rows ops = false) :
-    ops.foldl (applyOpImpl minLen maxLen keyed) rows = ops.foldl (applyOp keyed) rows := by
+theorem foldl_applyOpImpl (minLen maxLen : Nat) (lay : Layout) (ops : List Op) (rows : List Row)
+    (h : rStuck minLen maxLen lay rows ops = false) :
+    ops.foldl (applyOpImpl minLen maxLen lay) rows = ops.foldl (applyOp lay) rows := by
   induction ops generalizing rows with
   | nil => rfl
   | cons op ops ih =>
     simp only [rStuck, Bool.or_eq_false_iff] at h
     obtain ⟨h1, h2⟩ := h
-    have e : applyOpImpl minLen maxLen keyed rows op = applyOp keyed rows op := by
-      cases op <;> simp_all [applyOpImpl]
+    have e : applyOpImpl minLen maxLen lay rows op = applyOp lay rows op := by
+      simp [applyOpImpl, h1]
     simp only [List.foldl_cons]
     rw [← e]
     exact ih _ h2
+
+/-! ### The WHERE form with explicit key-column resolution -/
+
+/-- With the key values stored in the column order of the probed index (`ps = ixCols`) and rows that
+are pairwise different on those columns, every DOC_COUNT entry leads back to exactly its own row: the
+walk delivers, per unique search word, the rows containing it. -/
+theorem filterWalk_resolved (key : Word → κ) (minLen maxLen : Nat) (cs : List Nat) (rows : List Row) (q : List R)
+    (hu : UniqueOn cs rows) :
+    filterWalk key minLen maxLen cs cs rows q =
+      (uniqueWords key ((tokenize minLen q).map (·.1))).flatMap fun e => rows.filter (hasWord key minLen maxLen e.2.1) := by
+  unfold filterWalk
+  congr 1
+  funext e
+  apply flatMap_singleton_of
+  intro r hr
+  exact lookup_own cs rows hu r (List.mem_filter.mp hr).1
+
+theorem count_filterWalk (key : Word → κ) (minLen maxLen : Nat) (cs : List Nat) (rows : List Row) (q : List R)
+    (hu : UniqueOn cs rows) (x : Row) :
+    (filterWalk key minLen maxLen cs cs rows q).count x = matchCount key minLen maxLen q (docOf x) * rows.count x := by
+  rw [filterWalk_resolved key minLen maxLen cs rows q hu]
+  exact count_flatMap_filter (fun (e : Word × κ × Nat) r => hasWord key minLen maxLen e.2.1 r) _ rows x
+
+/-- Every row the resolved walk delivers matches (the `Filter` above the access path drops nothing). -/
+theorem filterWalk_all_match (key : Word → κ) (minLen maxLen : Nat) (cs : List Nat) (rows : List Row) (q : List R)
+    (hu : UniqueOn cs rows) :
+    (filterWalk key minLen maxLen cs cs rows q).filter (fun r => ftMatch key minLen maxLen q (docOf r))
+      = filterWalk key minLen maxLen cs cs rows q := by
+  rw [List.filter_eq_self]
+  intro x hx
+  rw [ftMatch_iff_count]
+  have hc : 0 < (filterWalk key minLen maxLen cs cs rows q).count x := List.count_pos_iff.mpr hx
+  rw [count_filterWalk key minLen maxLen cs rows q hu] at hc
+  exact Nat.pos_of_mul_pos_right hc
 
 end where_form
 
@@ -410,6 +445,147 @@ theorem where_form_partial {κ : Type} [DecidableEq κ] (key : Word → κ) (key
     have := List.any_eq_false.mp h r hr
     simpa using this
 
+/-- `id INT PRIMARY KEY`. -/
+def layPk1 : Layout := { pk := [0], uks := [], nn := [] }
+/-- `PRIMARY KEY (k2, id)` over the columns `(id, k2, …)`: declared out of column order. -/
+def layPkBA : Layout := { pk := [1, 0], uks := [], nn := [] }
+/-- `UNIQUE KEY u0 (k2, id)`, both NOT NULL. -/
+def layUkBA : Layout := { pk := [], uks := [[1, 0]], nn := [0, 1] }
+/-- `UNIQUE KEY u0 (k2, id)` with `id` nullable: unusable as a row key. -/
+def layUkNull : Layout := { pk := [], uks := [[1, 0]], nn := [1] }
+
+/-! ### Key layouts: the WHERE access path resolves DOC_COUNT entries back to parent rows -/
+
+/-- Shape facts regenerated from the source: in `GetKeyColumns` the primary-key branch walks
+`sch.PkOrdinals` (the *declaration* order of PRIMARY KEY, not the schema order) and copies it into
+`positions`; the unique-key branch walks `index.Expressions()` and appends each resolved column; the
+three results are tried in the order primary, unique, none. In `fulltextFilterTableRowIter.Next` the key
+values `docRow[1 : len(docRow)-1]` become `ranges[i]` positionally, and `PartitionRows` selects the parent
+index `PRIMARY` / `KeyCols.Name`. -/
+theorem facts_key_shape :
+    Generated.C51.keyColsRanges = ["sch.PkOrdinals", "indexes", "index.Expressions()"] ∧
+    Generated.C51.keyColsCopies = ["copy(positions, sch.PkOrdinals)"] ∧
+    Generated.C51.keyColsPositionAppends = ["parentColPosition"] ∧
+    Generated.C51.keyColsTypes = ["KeyType_Primary", "KeyType_Unique", "KeyType_None"] ∧
+    Generated.C51.filterKeyRanges = ["docRow[1 : len(docRow)-1]"] ∧
+    Generated.C51.filterRangeTargets = ["ranges[i]"] ∧
+    Generated.C51.filterParentIndexIDs = ["\"PRIMARY\"", "f.MatchAgainst.KeyCols.Name"] := by
+  decide
+
+def ktCode : KeyType → Nat × Nat
+  | .primary => (0, 0)
+  | .unique i => (1, i)
+  | .none => (2, 0)
+
+/-- Run facts: on a freshly created table of every key layout of the envelope (12 layouts × 2 column
+placements) the real `fulltext.GetKeyColumns` returned the key type and positions the model
+`getKeyColumns` computes, and the parent index the filter selects has the columns `parentIndexCols`. -/
+theorem facts_key_columns :
+    Generated.C51.keyColsRuns.length = 24 ∧
+    ∀ e ∈ Generated.C51.keyColsRuns,
+      ktCode (getKeyColumns { pk := e.1.1, uks := e.1.2.1, nn := e.1.2.2 }).type = (e.2.1, e.2.2.1) ∧
+      (getKeyColumns { pk := e.1.1, uks := e.1.2.1, nn := e.1.2.2 }).positions = e.2.2.2.1 ∧
+      parentIndexCols { pk := e.1.1, uks := e.1.2.1, nn := e.1.2.2 }
+        (getKeyColumns { pk := e.1.1, uks := e.1.2.1, nn := e.1.2.2 }).type = e.2.2.2.2 := by
+  decide
+
+/-- **Key-column resolution**: for EVERY key layout (any PRIMARY KEY declaration order, any list of
+UNIQUE KEYs, any nullability) the key values are stored in DOC_COUNT in exactly the column order of
+the parent index they are later used to probe. -/
+theorem key_columns_resolve (lay : Layout) :
+    (getKeyColumns lay).positions = parentIndexCols lay (getKeyColumns lay).type :=
+  key_resolution lay
+
+/-- 'sun pie' under key (id 1, k2 2); 'sun' under (2, 1); 'pie' under (3, 3). -/
+def rowsBA : List Row :=
+  [{ id := 1, k2 := 2, cols := [some ([115, 117, 110, 32, 112, 105, 101].map fun c => { cp := c, len := 1, ch := c != 32 })] },
+   { id := 2, k2 := 1, cols := [some ([115, 117, 110].map fun c => { cp := c, len := 1, ch := true })] },
+   { id := 3, k2 := 3, cols := [some ([112, 105, 101].map fun c => { cp := c, len := 1, ch := true })] }]
+def qSun : List R := [115, 117, 110].map fun c => { cp := c, len := 1, ch := true }
+
+/-- Non-vacuity: `PRIMARY KEY (k2, id)` resolves to positions `[1, 0]`, a unique key over the same
+columns likewise, a unique key with a nullable column falls back to the row hash; on a table with a
+transposed pair of keys the WHERE form finds exactly the two rows containing 'sun'. -/
+example : (getKeyColumns layPkBA = { type := .primary, positions := [1, 0] }) ∧
+    (getKeyColumns layUkBA = { type := .unique 0, positions := [1, 0] }) ∧
+    (getKeyColumns layUkNull = { type := .none, positions := [] }) ∧
+    UniqueOn (getKeyColumns layPkBA).positions rowsBA ∧
+    (implWhere (fun w => w) 3 84 layPkBA rowsBA qSun).map (fun r => (r.id, r.k2)) = [(1, 2), (2, 1)] ∧
+    (specMatch (fun w => w) 3 84 rowsBA qSun).map (fun r => (r.id, r.k2)) = [(1, 2), (2, 1)] := by
+  unfold UniqueOn
+  decide
+
+/-- Why `key_columns_resolve` matters (the hypothesis `ps = ixCols` of the walk lemmas is not
+decoration): were the key values of `PRIMARY KEY (k2, id)` stored in *schema* order `[0, 1]` while the
+parent index is probed in declaration order `[1, 0]`, the entry of row (1, 2) is resolved to the row
+with k2 = 1, id = 2 — rows are lost (and others delivered in their place) although every
+pseudo-index table is consistent with itself. -/
+theorem schema_order_positions_lose_rows :
+    ∃ rows q x, x ∈ specMatch (fun w => w) 3 84 rows q ∧
+      x ∉ (filterWalk (fun w => w) 3 84 [0, 1] [1, 0] rows q).filter (fun r => ftMatch (fun w => w) 3 84 q (docOf r)) :=
+  ⟨[{ id := 1, k2 := 2, cols := [some qSun] }, { id := 3, k2 := 3, cols := [some qSun] }], qSun,
+    { id := 1, k2 := 2, cols := [some qSun] }, by decide⟩
+
+/-- The walk with explicit key resolution is the multiplicity model `implMatchWhere` as a multiset:
+for every key layout with a usable key and every table whose rows differ on that key, every row is
+delivered exactly `matchCount` times. -/
+theorem filter_walk_count {κ : Type} [DecidableEq κ] (key : Word → κ) (lay : Layout) (rows : List Row) (q : List R)
+    (hk : keyedIdx lay = true) (hu : UniqueOn (getKeyColumns lay).positions rows) (x : Row) :
+    (implWhere key 3 84 lay rows q).count x = (implMatchWhere key 3 84 true rows q).count x := by
+  unfold implWhere implMatchWhere
+  simp only [hk, if_true]
+  rw [← key_resolution lay, filterWalk_all_match key 3 84 _ rows q hu, count_filterWalk key 3 84 _ rows q hu]
+  exact (count_flatMap_replicate (fun r => matchCount key 3 84 q (docOf r)) rows x).symm
+
+/-- **MATCH in WHERE returns exactly the rows MATCH in the select list marks, for every key layout**
+(as a set of rows — full strength, no defect region: the known repeat defect only concerns how often a
+row is returned): primary keys in any declaration order, unique keys, row-hash tables. Hypothesis:
+the rows differ on the key the index uses (`where_form_same_rows_hist`: true after any history). -/
+theorem where_form_same_rows {κ : Type} [DecidableEq κ] (key : Word → κ) (lay : Layout) (rows : List Row) (q : List R)
+    (hu : keyedIdx lay = true → UniqueOn (getKeyColumns lay).positions rows) (x : Row) :
+    x ∈ implWhere key 3 84 lay rows q ↔ x ∈ specMatch key 3 84 rows q := by
+  cases hk : keyedIdx lay with
+  | false => simp [implWhere, hk]
+  | true =>
+    have hc := filter_walk_count key lay rows q hk (hu hk) x
+    unfold implMatchWhere at hc
+    simp only [if_true] at hc
+    rw [count_flatMap_replicate (fun r => matchCount key 3 84 q (docOf r)) rows x] at hc
+    rw [← List.count_pos_iff, hc]
+    unfold specMatch
+    rw [List.mem_filter, ftMatch_iff_count, ← List.count_pos_iff]
+    constructor
+    · intro h
+      exact ⟨Nat.pos_of_mul_pos_left h, Nat.pos_of_mul_pos_right h⟩
+    · intro h
+      exact Nat.mul_pos h.2 h.1
+
+/-- Outside the repeat region the WHERE form of every key layout is a permutation of the Spec. -/
+theorem where_form_key_layouts_partial {κ : Type} [DecidableEq κ] (key : Word → κ) (lay : Layout) (rows : List Row) (q : List R)
+    (hu : keyedIdx lay = true → UniqueOn (getKeyColumns lay).positions rows)
+    (h : rRepeats key 3 84 (keyedIdx lay) rows q = false) :
+    (implWhere key 3 84 lay rows q).Perm (specMatch key 3 84 rows q) := by
+  cases hk : keyedIdx lay with
+  | false => simp [implWhere, hk]
+  | true =>
+    rw [List.perm_iff_count]
+    intro x
+    rw [filter_walk_count key lay rows q hk (hu hk) x, where_form_partial key true rows q (by rw [← hk]; exact h)]
+
+/-- The reference semantics keeps every declared key unique across any history (so the hypothesis of
+the theorems above holds for every reachable table), and so does the Impl model of the statements. -/
+theorem keys_stay_unique (lay : Layout) (ops : List Op) :
+    KeysUnique lay (ops.foldl (applyOp lay) []) ∧ KeysUnique lay (ops.foldl (applyOpImpl 3 84 lay) []) :=
+  ⟨keysUnique_foldl lay ops [] (keysUnique_nil lay), keysUnique_foldl_impl 3 84 lay ops [] (keysUnique_nil lay)⟩
+
+/-- After ANY DML history on ANY key layout, `WHERE MATCH … AGAINST` selects exactly the rows the
+select-list form marks. -/
+theorem where_form_same_rows_hist {κ : Type} [DecidableEq κ] (key : Word → κ) (lay : Layout) (ops : List Op) (q : List R) (x : Row) :
+    x ∈ implWhere key 3 84 lay (ops.foldl (applyOpImpl 3 84 lay) []) q ↔
+      x ∈ specMatch key 3 84 (ops.foldl (applyOpImpl 3 84 lay) []) q :=
+  where_form_same_rows key lay _ q
+    (fun hk => (keys_stay_unique lay ops).2 _ (positions_mem_constraints lay hk)) x
+
 def ascii (s : List Nat) : List R := s.map fun c =>
   { cp := c, len := 1, ch := (97 ≤ c && c ≤ 122) || (65 ≤ c && c ≤ 90) }
 
@@ -426,23 +602,31 @@ Full statement for DML histories — FALSE for the code as it is:
 
 /-- Table contents after a history follow the reference semantics — guarded: unless the history
 deletes or updates a row whose document contains a word longer than `maxWordLength` bytes. -/
-theorem dml_partial (keyed : Bool) (ops : List Op) (h : rStuck 3 84 keyed [] ops = false) :
-    ops.foldl (applyOpImpl 3 84 keyed) [] = ops.foldl (applyOp keyed) [] :=
-  foldl_applyOpImpl 3 84 keyed ops [] h
+theorem dml_partial (lay : Layout) (ops : List Op) (h : rStuck 3 84 lay [] ops = false) :
+    ops.foldl (applyOpImpl 3 84 lay) [] = ops.foldl (applyOp lay) [] :=
+  foldl_applyOpImpl 3 84 lay ops [] h
+
 
 set_option maxRecDepth 100000 in
 /-- Finding: a row with an 85-byte word can be inserted but never deleted (the statement fails). -/
 theorem finding_dml_rejected_for_row_with_overlong_word :
-    ∃ keyed ops, rStuck 3 84 keyed [] ops = true ∧
-      ops.foldl (applyOpImpl 3 84 keyed) [] ≠ ops.foldl (applyOp keyed) [] :=
-  ⟨true, [.ins { id := 1, cols := [some (ascii (List.replicate 85 119))] }, .del 1], by decide⟩
+    ∃ lay ops, rStuck 3 84 lay [] ops = true ∧
+      ops.foldl (applyOpImpl 3 84 lay) [] ≠ ops.foldl (applyOp lay) [] :=
+  ⟨layPk1, [.ins { id := 1, cols := [some (ascii (List.replicate 85 119))] }, .del 1], by decide⟩
 
 /-- Non-vacuity of `dml_partial` / `where_form_partial`: a history with insert, update, key change
 and delete on short words. -/
-example : rStuck 3 84 true [] [.ins { id := 1, cols := [some (ascii [115, 117, 110])] }, .upd 1 [some (ascii [112, 105, 101])],
+example : rStuck 3 84 layPk1 [] [.ins { id := 1, cols := [some (ascii [115, 117, 110])] }, .upd 1 [some (ascii [112, 105, 101])],
       .rekey 1 2, .ins { id := 1, cols := [none] }, .del 1] = false
     ∧ ([Op.ins { id := 1, cols := [some (ascii [115, 117, 110])] }, .upd 1 [some (ascii [112, 105, 101])],
-      .rekey 1 2, .ins { id := 1, cols := [none] }, .del 1].foldl (applyOp true) []).map (·.id) = [2] := by
+      .rekey 1 2, .ins { id := 1, cols := [none] }, .del 1].foldl (applyOp layPk1) []).map (·.id) = [2] := by
+  decide
+
+/-- Non-vacuity on a composite key declared out of column order: a duplicate key is rejected, each key
+component can be changed, a change that would collide is rejected as a whole. -/
+example :
+    ([Op.ins { id := 1, k2 := 2, cols := [none] }, .ins { id := 2, k2 := 1, cols := [none] }, .ins { id := 1, k2 := 2, cols := [] },
+      .rekey2 2 2, .rekey 2 1, .rekey2 1 5].foldl (applyOp layPkBA) []).map (fun r => (r.id, r.k2)) = [(1, 5), (2, 2)] := by
   decide
 
 /-! ### The editor keeps the pseudo-index tables in sync (Impl model Gms/Model/FulltextEditor.lean) -/
